@@ -41,6 +41,55 @@ pub fn evaluate_pair(case: &PairCase, run: &PairRun, focus: Focus) -> Outcome {
         // re-poll of every task resolves: that is a wake-up the library owed
         check_c06(&StallInfo { two_send_waiters, unfinished: &run.unfinished, completed_when_repolled: run.completed_when_repolled, end: &run.end }, run.panic.is_some(), &mut out);
     }
+    // two correct endpoints running legal programs never accuse each other: a GOAWAY or RST_STREAM carrying
+    // PROTOCOL_ERROR, FLOW_CONTROL_ERROR, FRAME_SIZE_ERROR or COMPRESSION_ERROR that no application asked for means
+    // one side emitted something illegal or the other penalised legal traffic
+    if focus != Focus::Faults && run.panic.is_none() {
+        let app_codes: Vec<u32> = run.events.iter().filter_map(|e| if let Api::SentReset { code } = &e.api { Some(*code) } else { None }).chain(case.ops.iter().filter_map(|o| if let ConnCmd::AbruptShutdown(c) = o.cmd { Some(c) } else { None })).collect();
+        let known_c04 = out.violations.iter().any(|v| v.signature.starts_with("C04/promised-id-not-increasing"));
+        for f in &tap.frames {
+            let (what, code) = match &f.frame {
+                Ok(crate::refmodel::wire::Frame::GoAway { code, .. }) => ("GOAWAY", *code),
+                Ok(crate::refmodel::wire::Frame::Rst { code, .. }) => ("RST_STREAM", *code),
+                _ => continue,
+            };
+            if ![1u32, 3, 6, 9].contains(&code) || app_codes.contains(&code) || known_c04 {
+                continue;
+            }
+            // an endpoint configured to remember its resets for no time at all (or none of them) may treat frames that were
+            // in flight when it reset a stream as errors (RFC 9113 §5.1, closed: "can choose to limit the period")
+            let acc_cfg = if f.from == Side::Server { &case.scfg } else { &case.ccfg };
+            if acc_cfg.reset_dur_zero || acc_cfg.reset_max.is_some() {
+                continue;
+            }
+            let name = match code {
+                1 => "PROTOCOL_ERROR",
+                3 => "FLOW_CONTROL_ERROR",
+                6 => "FRAME_SIZE_ERROR",
+                _ => "COMPRESSION_ERROR",
+            };
+            // the history that (most probably) set it off, for the signature: trailers that were in flight for a stream
+            // the accuser had already reset or refused
+            let mut history = String::new();
+            if what == "GOAWAY" {
+                let x = f.from;
+                let resets: Vec<(u32, u64)> = tap.frames.iter().filter(|g| g.from == x && g.t_w0 <= f.t_w0).filter_map(|g| if let Ok(crate::refmodel::wire::Frame::Rst { stream, .. }) = &g.frame { Some((*stream, g.t_w0)) } else { None }).collect();
+                for (s2, _) in &resets {
+                    let heads: Vec<&tapx::TFrame> = tap.frames.iter().filter(|g| g.from != x && g.raw.stream == *s2 && matches!(&g.frame, Ok(crate::refmodel::wire::Frame::Headers { .. }))).collect();
+                    if heads.len() >= 2 && heads[1].t_d.map(|d| d <= f.t_w0).unwrap_or(false) {
+                        history = "/trailers-in-flight-for-a-stream-it-had-reset".into();
+                    }
+                }
+            }
+            out.fail(
+                "C09",
+                "legal-traffic-penalised",
+                format!("C09/pair/legal-exchange-accused/{}-{}-by-{}{}", what, name, f.from.name(), history),
+                format!("{} sent {}({}) although both endpoints are h2 running legal programs (frame #{} of its output, stream {})", f.from.name(), what, name, f.idx, f.raw.stream),
+            );
+            break;
+        }
+    }
     let app_pending = run.unfinished.iter().any(|(_, g)| matches!(g, Group::ClientApp | Group::ServerApp));
     let conn_err = run.events.iter().any(|e| matches!(&e.api, Api::ConnDone { result: Err(_) }));
     let settled = run.end == RunEnd::Quiescent && !app_pending && run.panic.is_none() && !faulty && !conn_err;
